@@ -91,6 +91,24 @@ theorem dot_product_sound :
       | some fn, some rts => (match fn chk [k1, k2] [] with | .ok out => outOk rts out | .error _ => true)
       | _, _ => false) = true := by decide
 
+/-- matrix built-ins (column counts: an int value of kind Scalar(real), as constants are inferred) -/
+theorem matrix_builtins_sound :
+    [true, false].all (fun chk => ["<builtin>matmul", "<builtin>linear_solve"].all fun f =>
+      rtUniverse.all fun r1 => rtUniverse.all fun r2 => kindUniverse.all fun k1 => kindUniverse.all fun k2 =>
+      !((match k1 with | none => true | some k' => compat r1 k') && (match k2 with | none => true | some k' => compat r2 k')) ||
+      match builtin f, rtBuiltin f [r1, r2, .int, .int] [] with
+      | some fn, some rts => (match fn chk [k1, k2, some (.scalar true), some (.scalar true)] [] with
+          | .ok out => outOk rts out | .error _ => true)
+      | _, _ => false) = true := by decide
+
+theorem transpose_sound :
+    [true, false].all (fun chk => rtUniverse.all fun r1 => kindUniverse.all fun k1 =>
+      !(match k1 with | none => true | some k' => compat r1 k') ||
+      match builtin "<builtin>transpose", rtBuiltin "<builtin>transpose" [r1, .int] [] with
+      | some fn, some rts => (match fn chk [k1, some (.scalar true)] [] with
+          | .ok out => outOk rts out | .error _ => true)
+      | _, _ => false) = true := by decide
+
 /-! non-vacuity -/
 example : infer true (mkRegistry []) Table.init "p" (.prod [.var "<t>", .const (.cplx "1j")]) = .ok (.scalar false) := by decide
 example : rtEval (fun _ _ _ => []) (fun _ => .real) (.prod [.var "<t>", .const (.cplx "1j")]) = .cplx := by decide
